@@ -73,7 +73,7 @@ func (n *c17Node) level() int {
 var c17Idents = []string{"a", "b", "foo", "bar", "x1", "_y", "camelCase", "data", "item", "nullx", "andy", "notable", "ort", "truely", "i"}
 var c17Funcs = []string{"length", "keys", "round", "min", "max", "f", "isFirst", "augmentMap", "range", "strContains"}
 var c17Ints = []string{"0", "1", "2", "7", "10", "42", "100", "255", "65536", "1234567890123", "9223372036854775807",
-	"-1", "-3", "-42", "-9223372036854775808", "0x1A", "0xFF", "0x0", "0x7FFFFFFFFFFFFFFF"}
+	"-1", "-3", "-42", "-9223372036854775808", "0x1A", "0xFF", "0x10", "0x0", "0x00F", "0x7FFFFFFFFFFFFFFF"}
 var c17WildInts = []string{"9223372036854775808", "-9223372036854775809", "0xFFFFFFFFFFFFFFFF", "99999999999999999999", "007", "0x", "0xg", "1a"}
 var c17Floats = []string{"0.5", "1.0", "2.25", "3.0", "0.125", "12.75", "100.5", "0.0", "-0.5", "-2.0", "-0.0", "1e3", "2.5e-1", "1.5e+2", "5e-1",
 	"1e6", "1e21", "1.25e10", "-1e3", "-7.5e-1", "1000000.0", "123456.5", "0.0009765625", "6e0", "4e+0"}
